@@ -226,6 +226,14 @@ def emit_serde_arb(d: Decl):
                 Ok(Ok(t)) => nvrt::ArbObs::Ok(inner_of(t)),
             })
         }""")
+    if "Arbitrary" in der:
+        methods.append("""fn arb_take_rest(&self, bytes: &[u8]) -> Option<nvrt::ArbObs> {
+            Some(match nvrt::guarded(|| { let u = ::arbitrary::Unstructured::new(bytes); <TT as ::arbitrary::Arbitrary>::arbitrary_take_rest(u) }) {
+                Err(p) => nvrt::ArbObs::Panic(p),
+                Ok(Err(e)) => nvrt::ArbObs::ArbErr(e.to_string()),
+                Ok(Ok(t)) => nvrt::ArbObs::Ok(inner_of(t)),
+            })
+        }""")
     return methods, items
 
 
